@@ -9,6 +9,10 @@ Init == l = 1
 NonStdOpts(o) == (o % 4 # 0) \/ ((o \div 16) % 4 # 0)         \* HEX_INTEGERS, ONE_CHARACTER.., HEX_ESCAPE_CODES, ESCAPE_CONTROLS_ONLY
 Documented(out) == out \in {"ok", "parse_error", "out_of_range"}
 
+(* the value at a path of 1-based positions (lists and dicts both log their members in .v) *)
+RECURSIVE SubAt(_, _)
+SubAt(v, path) == IF path = <<>> THEN v ELSE SubAt(v.v[Head(path)], Tail(path))
+SameBoth(a, b) == VEq(a, b, TRUE) /\ VEq(b, a, TRUE)
 (* C04: one (tree, option set) *)
 RoundTrip(ev) ==
   LET pe == ParseDoc(ev.text, TRUE) IN
@@ -23,6 +27,9 @@ RoundTrip(ev) ==
   /\ Chk(ev.copyeq = 1 /\ ev.copydeep = 1, "copies are not deep or do not compare equal to their source")
   /\ Chk(\A i \in DOMAIN ev.assigned : VEq(ev.tree, ev.assigned[i], TRUE) /\ VEq(ev.assigned[i], ev.tree, TRUE),
          "copy assignment onto a destination that already holds a value does not produce a value equal to the source")
+  /\ Chk(ev.selfres.t = "skip" \/ SameBoth(ev.tree, ev.selfres), "assigning a value to itself changed it")
+  /\ Chk(\A i \in DOMAIN ev.childsel : SameBoth(SubAt(ev.tree, ev.childsel[i]), ev.childres[i]),
+         "assigning a value from one of its own members (a = a.at(i)) does not produce a copy of that member")
 
 (* C05: one text through both modes and the three entry points.  res = <<reader def, ptr def, string def, reader strict, ptr strict, string strict>> *)
 ParseEv(ev) ==
